@@ -171,11 +171,6 @@ Qed.
    C07-semicolon-before-newline (`1;` and `2` succeed, `1;\n2` was a parse
    error), repaired in the numbat worktree; Gen/ParserLoop.v re-derives the flag
    from parser.rs on every run. *)
-Definition one_tok (ts : list nat) : sres nat nat unit :=
-  match ts with
-  | t :: r => if Nat.leb t 2 then SErr nat nat unit tt else SOk nat nat unit t r
-  | [] => SErr nat nat unit tt
-  end.
 Definition old_parse := parse nat (Nat.eqb 0) (Nat.eqb 1) false nat unit one_tok tt.
 Definition new_parse := parse nat (Nat.eqb 0) (Nat.eqb 1) parser_semi_skips nat unit one_tok tt.
 
@@ -185,6 +180,16 @@ Theorem C07_semicolon_before_fix_refuted :
   /\ new_parse ([5; 1] ++ 0 :: [6]) = POk nat unit [5; 6].
 Proof. vm_compute. repeat split; reflexivity. Qed.
 
+(* non-vacuity of the four locality conditions: they hold for the one-token
+   statement parser, so concatenation holds for it outright (with the loop as it
+   is in parser.rs now) *)
+Theorem C07_parse_concat_one_tok :
+  forall ta tb la lb,
+    new_parse ta = POk nat unit la -> new_parse tb = POk nat unit lb ->
+    new_parse (ta ++ 0 :: tb) = POk nat unit (la ++ lb).
+Proof. exact (one_tok_parse_concat parser_semi_skips (eq_refl : parser_semi_skips = true)). Qed.
+
+Print Assumptions C07_parse_concat_one_tok.
 Print Assumptions C07_fold_toy.
 Print Assumptions C07_parse_concat_toy.
 Print Assumptions C07_parse_concat_skeleton.
